@@ -400,7 +400,7 @@ void gen_drift(Plan& p, Rng& r, uint64_t index)
     for (int i = 0; i < n; ++i)
     {
         Step s = mk("x_drift", r, 4, 1);
-        s.a[1] = (int64_t)((index / 18 + (uint64_t)i) % 18) + 18 * (int64_t)r.below(50);  // edit kinds in rotation
+        s.a[1] = (int64_t)((index / 18 + (uint64_t)i) % 19) + 19 * (int64_t)r.below(50);  // edit kinds in rotation
         p.steps.push_back(s);
     }
 }
@@ -631,6 +631,25 @@ Plan generate_plan(const std::string& profile_in, uint64_t seed, uint64_t index)
             st.fault.pos = (int64_t)r.below(r.chance(1, 2) ? 4 : 14);
             st.fault.code = 5;  // SQLITE_BUSY
             st.fault.role = (p.cfg.schema < 11 && r.chance(1, 2)) ? FR_PDB : FR_MDB;
+            // calls of the track / crate API also meet real-path faults in the middle of a history (interrupt, device
+            // fault - one-shot or persistent -, failed allocation); position resolved against a shadow execution
+            static const char* lops[] = {"create_track", "update", "remove_track", "set", "rewrite", "create_root", "create_root_after",
+                                         "create_sub", "create_sub_after", "set_name", "set_parent", "remove_crate", "add_track",
+                                         "remove_from", "clear"};
+            bool lop = false;
+            for (auto* o : lops)
+                lop = lop || st.op == o;
+            if (lop && disk && r.chance(2, 5))
+            {
+                unsigned k = (unsigned)r.below(10);
+                st.fault = FaultSpec{};
+                st.fault.kind = k < 2 ? FK_TICK : k < 9 ? FK_VFS : FK_MALLOC;
+                st.fault.pos = (int64_t)r.below(1000000);
+                st.fault.code = (int)r.below(2);
+                st.fault.persist = (st.fault.kind == FK_VFS && k >= 6) ? 1 : 0;
+                st.fault.method = 0;
+                st.fault.role = 0;
+            }
         }
     }
     if (aud)
